@@ -114,6 +114,7 @@ func Profile(name string) Knobs {
 		k.PTopology, k.PAntiAffinity, k.PAffinity = 0, 0.02, 0
 	case "gangs": // C03
 		k.PGang, k.GangMax, k.PSubGroups, k.PElastic = 0.8, 6, 0.4, 0.4
+		k.PStaleGang = 0.12
 		k.Fill, k.PTerminating = 0.5, 0.35
 		k.PFaults = 0
 		k.KindWeights = map[string]int{"cpu": 2, "whole": 6, "fraction": 2, "gpumem": 1}
@@ -298,8 +299,15 @@ func (g *G) staleGangs() {
 			continue
 		}
 		active := 0
+		binding := map[string]bool{} // pods that are being bound (Pending + live BindRequest) count as active members too
+		for _, br := range g.c.Objects.BindRequests {
+			binding[br.Namespace+"/"+br.Spec.PodName] = true
+		}
 		for _, p := range g.c.Objects.Pods {
-			if p.Annotations["pod-group-name"] == pg.Name && p.Spec.NodeName != "" && p.Status.Phase == v1.PodRunning {
+			if p.Annotations["pod-group-name"] != pg.Name || p.DeletionTimestamp != nil {
+				continue
+			}
+			if (p.Spec.NodeName != "" && (p.Status.Phase == v1.PodRunning || p.Status.Phase == v1.PodPending)) || binding[p.Namespace+"/"+p.Name] {
 				active++
 			}
 		}
